@@ -602,6 +602,76 @@ func runDNA(c *mon.Case) {
 	c.Note("%s: %d branch lengths agree with exp(Qt)", pt.desc, len(ts))
 }
 
+// reinitDNA gives new parameters to an EXISTING model object.
+func reinitDNA(m models.Model, p dnaParams) error {
+	pi := p.Pi
+	switch mm := m.(type) {
+	case *dna.JCModel:
+		return mm.InitModel()
+	case *dna.K2PModel:
+		mm.InitModel(p.Kappa)
+		return nil
+	case *dna.F81Model:
+		return mm.InitModel(pi[0], pi[1], pi[2], pi[3])
+	case *dna.F84Model:
+		mm.InitModel(p.Kappa, pi[0], pi[1], pi[2], pi[3])
+		return nil
+	case *dna.TN93Model:
+		return mm.InitModel(p.Kappa1, p.Kappa2, pi[0], pi[1], pi[2], pi[3])
+	case *dna.GTRModel:
+		rt := p.Rates
+		return mm.InitModel(rt[0], rt[1], rt[2], rt[3], rt[4], rt[5], pi[0], pi[1], pi[2], pi[3])
+	}
+	return fmt.Errorf("unknown model type %T", m)
+}
+
+// runReparam: ONE model object is given 2..4 parameter vectors in a row and evaluated at the SAME branch lengths
+// after each of them: every value must belong to the current parameters (nothing cached from the previous ones).
+func runReparam(c *mon.Case) {
+	r := c.R
+	model := dnaModels[1+r.Intn(len(dnaModels)-1)] // not jc: a single parameter point
+	ts := genTimes(r)
+	k := r.Range(2, 4)
+	var ps []dnaParams
+	for i := 0; i < k; i++ {
+		p, _ := genDNA(r, model)
+		ps = append(ps, p)
+	}
+	if r.Chance(0.3) {
+		ps = append(ps, ps[0]) // and back to the first vector
+	}
+	c.Input(map[string]interface{}{"model": model, "params_in_a_row": ps, "t": ts})
+	m, err := mkDNA(ps[0])
+	if err != nil {
+		c.Failf(model+":unexpected-error", "%s\nInitModel: %v", dnaDesc(ps[0]), err)
+		return
+	}
+	for i, p := range ps {
+		if i > 0 {
+			if err := reinitDNA(m, p); err != nil {
+				c.Failf(model+":unexpected-error", "%s\nInitModel on an object already initialised: %v", dnaDesc(p), err)
+				return
+			}
+		}
+		pi := p.Pi[:]
+		if p.Model == "k2p" {
+			pi = []float64{.25, .25, .25, .25}
+		}
+		pt := point{name: p.Model, desc: fmt.Sprintf("%s (parameter vector %d of %d given to one model object)", dnaDesc(p), i+1, len(ps)), model: m, pi: pi, qs: []M{dnaQ(p)}, qnames: []string{"unit-rate"}}
+		checkPoint(c, pt, ts)
+		if c.Failed() {
+			return
+		}
+		// the next vector is first evaluated at the branch length this one was evaluated at last
+		rev := make([]float64, len(ts))
+		for a := range ts {
+			rev[len(ts)-1-a] = ts[a]
+		}
+		ts = rev
+	}
+	c.Count("reparam:" + model)
+}
+
 // ---------------------------------------------------------------- protein models
 
 type protTable struct {
@@ -916,6 +986,9 @@ func main() {
 		mon.Floor("prot:"+tb.name+":model", 40)
 		mon.Floor("tables:"+tb.name, 1)
 	}
+	for _, m := range dnaModels[1:] {
+		mon.Floor("reparam:"+m, 500)
+	}
 	mon.Floor("tables:literature-matrix", 2)
 	mon.Floor("tables:literature-frequencies", 4)
 	mon.Floor("check:semigroup", 10000)
@@ -944,6 +1017,7 @@ func main() {
 	mon.Main("C18", []mon.Sub{
 		{Name: "witness", Quick: nWitness, Thorough: nWitness, Run: runWitness},
 		{Name: "tables", Quick: 7, Thorough: 7, Run: runTables},
+		{Name: "reparam", Quick: 30000, Thorough: 600000, Run: runReparam},
 		{Name: "dna", Quick: 120000, Thorough: 3000000, Run: runDNA},
 		{Name: "protein", Quick: 6000, Thorough: 150000, Run: runProtein},
 	})
